@@ -166,12 +166,19 @@ def run(report, findings):
                     add(f, f"raised {type(ex).__name__}: {ex}")
         # ---- T / S are C with the encoding; standardize is scale
         for a, b in (("T(f, 'b')", "C(f, Treatment('b'))"), ("S(f, 'a')", "C(f, Sum('a'))"), ("standardize(x)", "scale(x)"),
-                     ("B(t)", "binary(t)"), ("B(m, 2)", "binary(m, 2)")):
-            try:
-                A, Bm = col(design_matrices(f"y ~ {a}", d)), col(design_matrices(f"y ~ {b}", d))
-                add(f"{a} == {b}", None if np.array_equal(A, Bm) else "synonyms give different columns")
-            except Exception as ex:
-                add(f"{a} == {b}", f"raised {type(ex).__name__}: {ex}")
+                     ("B(t)", "binary(t)"), ("B(m, 2)", "binary(m, 2)"), ("T(f, 'c')", "C(f, Treatment('c'))"), ("T(f)", "C(f, Treatment)"),
+                     ("S(f)", "C(f, Sum)"), ("T(f, ref='b')", "C(f, Treatment('b'))")):
+            # a synonym is a synonym in every context: with an intercept (reduced coding), without (full coding), inside an interaction
+            for ctx_ in ("y ~ {}", "y ~ 0 + {}", "y ~ 0 + x:{}"):
+                fa, fb = ctx_.format(a), ctx_.format(b)
+                try:
+                    da, db = design_matrices(fa, d), design_matrices(fb, d)
+                    A, Bm = col(da), col(db)
+                    la = [c.replace(a, "@") for c in da.common.as_dataframe().columns]
+                    lb = [c.replace(b, "@") for c in db.common.as_dataframe().columns]
+                    add(f"{fa} == {fb}", None if A.shape == Bm.shape and np.array_equal(A, Bm) and la == lb else "synonyms give different columns / labels")
+                except Exception as ex:
+                    add(f"{fa} == {fb}", f"raised {type(ex).__name__}: {ex}")
     evals = ok = bad = 0
     for tag, sig in res:
         evals += 1
